@@ -42,7 +42,17 @@ def bits(a):
 def fingerprint(res):
     fields = {}
     fields["percent_people_fed"] = struct.pack("<d", float(res.percent_people_fed)).hex()
-    for name, val in sorted(vars(res).items()):
+    # everything the result object exposes, whether it lives on the instance or (shared) on its class
+    names = set(vars(res))
+    for n_ in dir(type(res)):
+        if not n_.startswith("_"):
+            try:
+                if not callable(getattr(res, n_)):
+                    names.add(n_)
+            except Exception:
+                pass
+    for name in sorted(names):
+        val = getattr(res, name, None)
         if isinstance(val, Food):
             h = hashlib.sha256(bits(val.kcals) + bits(val.fat) + bits(val.protein) + "|".join(val.units).encode()).hexdigest()[:16]
             fields[name] = h
